@@ -70,7 +70,13 @@ Definition mk_entry (h : aranges_header) (t : Z * Z) : arange_entry :=
   mk_arange_entry (fst t) (snd t) (ah_debug_info_offset h) (ah_unit_length h)
                   (ah_version h) (ah_address_size h) (ah_segment_size h).
 
-(* ARanges._get_entries: one iteration of `while offset < self.size` per set *)
+(* ARanges._get_entries (after fix efe8bbe: the header is padded to the tuple size counted
+   from the start of the SET): one iteration of `while offset < self.size` per set
+     tuple_size = aranges_header["address_size"] * 2
+     header_size = self.stream.tell() - offset
+     seek_to = offset + -(-header_size // tuple_size) * tuple_size
+   (Python's // and Coq's Z./ are both floor division; tuple_size is 8 or 16 here because
+   _get_addr_size_struct has already asserted address_size in {4, 8}) *)
 Fixpoint get_entries_loop (fuel : nat) (le need_empty : bool) (stream : list Z) (size offset : Z)
   : res (list arange_entry) :=
   match fuel with
@@ -84,8 +90,8 @@ Fixpoint get_entries_loop (fuel : nat) (le need_empty : bool) (stream : list Z) 
             do n <- get_addr_size_struct (ah_address_size h);
             if ah_segment_size h =? 0 then
               let tuple_size := ah_address_size h * 2 in
-              let fp := offset + (zlen at_off - zlen after) in             (* stream.tell() *)
-              let seek_to := ((fp + tuple_size - 1) / tuple_size) * tuple_size in  (* ceil(fp/ts)*ts *)
+              let header_size := offset + (zlen at_off - zlen after) - offset in   (* stream.tell() - offset *)
+              let seek_to := offset + - (- header_size / tuple_size) * tuple_size in
               let bs := skipn (Z.to_nat seek_to) stream in
               match uint_decode le n bs with
               | None => Err EParse
@@ -134,3 +140,41 @@ Definition cu_offset_at_addr_unfixed (t : aranges) (addr : Z) : res (option Z) :
   if (ae_begin tup <=? addr) && (addr <? ae_begin tup + ae_length tup)
   then Ok (Some (ae_info_offset tup))
   else Ok None.
+
+(* the code as it was before fix efe8bbe, kept for the refutation theorem: the padding was
+   counted from the start of the SECTION
+     fp = self.stream.tell(); seek_to = int(math.ceil(fp/float(tuple_size)) * tuple_size) *)
+Fixpoint get_entries_loop_unfixed (fuel : nat) (le need_empty : bool) (stream : list Z) (size offset : Z)
+  : res (list arange_entry) :=
+  match fuel with
+  | O => Err EFuel
+  | S f =>
+      if offset <? size then
+        let at_off := skipn (Z.to_nat offset) stream in
+        match aranges_header_decode le at_off with
+        | None => Err EParse
+        | Some (h, after) =>
+            do n <- get_addr_size_struct (ah_address_size h);
+            if ah_segment_size h =? 0 then
+              let tuple_size := ah_address_size h * 2 in
+              let fp := offset + (zlen at_off - zlen after) in             (* stream.tell() *)
+              let seek_to := ((fp + tuple_size - 1) / tuple_size) * tuple_size in  (* ceil(fp/ts)*ts *)
+              let bs := skipn (Z.to_nat seek_to) stream in
+              match uint_decode le n bs with
+              | None => Err EParse
+              | Some (addr, r1) =>
+              match uint_decode le n r1 with
+              | None => Err EParse
+              | Some (length, r2) =>
+                  do ts <- tuples_loop (S (S (List.length r2))) le n need_empty addr length false r2;
+                  do more <- get_entries_loop_unfixed f le need_empty stream size
+                               (offset + ah_unit_length h + 4);   (* initial_length_field_size() = 4 *)
+                  Ok (map (mk_entry h) ts ++ more)
+              end end
+            else Err (EPy "NotImplementedError")
+        end
+      else Ok []
+  end.
+
+Definition get_entries_unfixed (le need_empty : bool) (stream : list Z) (size : Z) : res (list arange_entry) :=
+  get_entries_loop_unfixed (S (Z.to_nat size)) le need_empty stream size 0.
